@@ -177,6 +177,14 @@ func (vm *VM) Run() error {
 			if repetitions < 0 {
 				return fmt.Errorf("%w: negative count: %s", ErrBadRepetition, right)
 			}
+			if n := len(left.Elements); n == 0 {
+				// Repeating the empty array gives the empty array; do not
+				// loop repetitions times (which can be 2^63) for nothing.
+				repetitions = 0
+			} else if repetitions > math.MaxInt32/n {
+				// len*repetitions must not overflow and must stay a valid slice length.
+				return fmt.Errorf("%w: result too large: %s", ErrBadRepetition, right)
+			}
 			elements := make([]value, 0, len(left.Elements)*repetitions)
 			for range repetitions {
 				// every repetition gets its own copy of nested arrays and maps
